@@ -216,7 +216,9 @@ def run_one(m, root):
             return {"id": m["id"], "status": "caught" if ok else "MISSED", "rc": r.returncode, "rules": rules,
                     "first": (newv[0]["instance"] if newv else out[-300:])}
         else:
-            ok = r.returncode == 0
+            # "allow_undecided": the variant is behaviour preserving but beyond what the rules can
+            # prove; the only wrong answer is a VIOLATION
+            ok = r.returncode == 0 or (m.get("allow_undecided") and r.returncode == 2 and not newv and "VIOLATION" not in out)
             return {"id": m["id"], "status": "quiet" if ok else "NOISY", "rc": r.returncode, "rules": rules,
                     "first": (newv[0]["instance"] + " | " + newv[0]["detail"][:200] if newv else out[-400:])}
     except Exception as e:
